@@ -202,4 +202,143 @@ theorem cop_complete (np n : Nat) (op : COp) (hwf : op.WF2 np) (hin : op.InRange
       (fun h => by simp [COp.measures] at h)
     exact ⟨_, _, h1, h2, fun rest w rd os => ⟨_, _, hstep rest w rd os⟩⟩
 
+/-! ## a whole compile sequence -/
+
+theorem decode_inRange (ne np : Nat) (a : SOp) (d : Dec) (hdec : decode ne np a = some d) :
+    (toCOp a).InRange np (ne + np) := by
+  have h := hdec
+  unfold decode at h
+  unfold toCOp
+  split at h
+  · next g r hitem hregs =>
+    rw [hitem, hregs]
+    cases hq : regIx ne np r with
+    | none => rw [hq] at h; cases h
+    | some q =>
+      have hlt := regIx_lt hq
+      rw [← regIx_qIndex hq] at hlt
+      cases g <;> exact hlt
+  · next _ cr r hitem hregs =>
+    rw [hitem, hregs]
+    cases hq : regIx ne np r with
+    | none => rw [hq] at h; cases h
+    | some q =>
+      have hlt := regIx_lt hq
+      rw [← regIx_qIndex hq] at hlt
+      exact hlt
+  · next k _ cr c t hitem hregs =>
+    split at h
+    · next qc qt hc ht =>
+      have hlc := regIx_lt hc
+      have hlt := regIx_lt ht
+      rw [← regIx_qIndex hc] at hlc
+      rw [← regIx_qIndex ht] at hlt
+      rw [hitem, hregs]
+      cases k <;> simp only [pairPrims, reduceCtorEq] at h
+      all_goals exact ⟨hlc, hlt⟩
+    · cases h
+  · cases h
+
+theorem runSeq_appRaw_none (ne np : Nat) (l : List SOp) : runSeq (appRaw ne np) l none = none := by
+  induction l with
+  | nil => rfl
+  | cons a l ih => rw [Wire.runSeq_cons, appRaw_none, ih]
+
+theorem pushOut_popReg (sc : Script) (r : Reg) (h : sc r ≠ []) : pushOut (popReg sc r) r ((sc r).headD false) = sc := by
+  funext r'
+  unfold pushOut popReg
+  by_cases e : r' = r
+  · subst e
+    simp only [if_true]
+    cases hs : sc r' with
+    | nil => exact absurd hs h
+    | cons o tl => rfl
+  · simp [e]
+
+/-- **completeness of the compile loop for the group semantics**: every run of the compile sequence `l` that is possible in
+    the group semantics (from the group of a valid tableau `t`, reading the outcome streams `F` down to `F'`) is produced by
+    the stabilizer compile loop in probabilistic mode: there is a script of drawn bits under which `stepOp` runs `l` from
+    `t`, consumes exactly that script, ends in a valid tableau with the final group, and records exactly the outcomes that
+    the semantics read (`F = feed l new F'`) -/
+theorem run_complete (ne np : Nat) (l : List SOp) (hok : ∀ a, a ∈ l → (decode ne np a).isSome = true ∧ a.regs.Nodup)
+    {t : Tab} (ht : TInv (ne + np) t) (F F' : Script) (g' : GState)
+    (h : runSeq (appRaw ne np) l (some (gstate t, F)) = some (g', F')) :
+    ∃ (script : List Bool) (t' : Tab) (new : List Bool), TInv (ne + np) t' ∧ gstate t' = g' ∧ F = feed ne np l new F' ∧
+      ∀ (tail : List Bool) (w : List (Nat × Bool)) (rd os : List Bool), ∃ w' rd',
+        (l.map toCOp).foldlM (stepOp np (ne + np) .prob) ⟨t, w, script ++ tail, rd, os⟩ =
+          some ⟨t', w', tail, rd', os ++ new⟩ := by
+  induction l generalizing t F with
+  | nil =>
+    simp only [runSeq, List.foldl_nil, Option.some.injEq, Prod.mk.injEq] at h
+    refine ⟨[], t, [], ht, h.1, h.2, fun tail w rd os => ⟨w, rd, ?_⟩⟩
+    simp
+  | cons a l ih =>
+    obtain ⟨hd1, hd2⟩ := hok a List.mem_cons_self
+    obtain ⟨dd, hdd⟩ := Option.isSome_iff_exists.mp hd1
+    obtain ⟨hwf, hpr, hms⟩ := decode_toCOp ne np a dd hdd hd2
+    have hin := decode_inRange ne np a dd hdd
+    rw [Wire.runSeq_cons] at h
+    have e0 := appRaw_map ne np a dd hdd (some (gstate t)) F
+    simp only [Option.map_some] at e0
+    rw [e0] at h
+    by_cases hhas : dd.has F
+    · rw [if_pos hhas] at h
+      cases hr : runP (ne + np) (dd.prims (dd.out F)) (some (gstate t)) with
+      | none => rw [hr, Option.map_none, runSeq_appRaw_none] at h; cases h
+      | some g1 =>
+        rw [hr, Option.map_some] at h
+        rw [hpr] at hr
+        obtain ⟨pre, t1, ht1, hg1, hstep⟩ := cop_complete np (ne + np) (toCOp a) hwf hin ht (dd.out F) g1 hr
+        rw [← hg1] at h
+        obtain ⟨script2, t', new2, ht', hg', hF, hrun⟩ := ih (fun b hb => hok b (List.mem_cons_of_mem _ hb)) ht1 _ h
+        refine ⟨pre ++ script2, t', (if (toCOp a).measures then [dd.out F] else []) ++ new2, ht', hg', ?_,
+          fun tail w rd os => ?_⟩
+        · -- the streams
+          cases hm : dd.mreg with
+          | none =>
+            have hmf : (toCOp a).measures = false := by rw [← hms, hm]; rfl
+            have hpop : dd.pop F = F := by simp [Dec.pop, hm]
+            rw [hpop] at hF
+            simp only [hmf, Bool.false_eq_true, if_false, List.nil_append, feed, hdd, Option.bind_some, hm]
+            exact hF
+          | some r =>
+            have hmt : (toCOp a).measures = true := by rw [← hms, hm]; rfl
+            have hpop : dd.pop F = popReg F r := by simp [Dec.pop, hm]
+            have hout : dd.out F = (F r).headD false := by simp [Dec.out, hm]
+            have hne : F r ≠ [] := by simpa [Dec.has, hm] using hhas
+            rw [hpop] at hF
+            simp only [hmt, if_true, List.singleton_append, feed, hdd, Option.bind_some, hm, List.tail_cons,
+              List.headD_cons]
+            rw [← hF, hout, pushOut_popReg F r hne]
+        · obtain ⟨w1, rd1, hs1⟩ := hstep (script2 ++ tail) w rd os
+          obtain ⟨w2, rd2, hs2⟩ := hrun tail w1 rd1 (os ++ (if (toCOp a).measures then [dd.out F] else []))
+          refine ⟨w2, rd2, ?_⟩
+          simp only [List.map_cons, List.foldlM]
+          rw [List.append_assoc, hs1]
+          simp only [Option.bind_eq_bind, Option.bind_some]
+          rw [hs2, List.append_assoc]
+    · rw [if_neg hhas, runSeq_appRaw_none] at h; cases h
+
+theorem tinv_ket0 (n : Nat) : TInv n (Tab.ket0 n) :=
+  ⟨Tab.ket0_valid n, by
+    intro i h1 _
+    have h1' : n ≤ i := h1
+    have : ¬ i < n := by omega
+    simp [Tab.ket0, this, Zq], rfl⟩
+
+/-- completeness on a sane circuit, from `|0…0⟩`: a possible run of the group semantics along `seq` is produced by
+    `stabRun` in probabilistic mode under some script -/
+theorem stabRun_complete (c : Wire.Circuit) (hgood : c.Good) (har : ArityOk c) (seq : List Nat) (F : Script) (g' : GState)
+    (h : runSeq (appRaw c.ne c.np) (c.sops seq) (some (gstate (Tab.ket0 (c.ne + c.np)), F)) = some (g', fun _ => [])) :
+    ∃ (script : List Bool) (s' : RunState),
+      stabRun c.ne c.np .prob script ((c.sops seq).map toCOp) = some s' ∧ gstate s'.t = g' ∧
+        F = feed c.ne c.np (c.sops seq) s'.outs (fun _ => []) := by
+  obtain ⟨script, t', new, _, hg, hF, hrun⟩ := run_complete c.ne c.np (c.sops seq) (sops_ok c hgood har seq)
+    (tinv_ket0 (c.ne + c.np)) F (fun _ => []) g' h
+  obtain ⟨w', rd', hs⟩ := hrun [] [] [] []
+  refine ⟨script, ⟨t', w', [], rd', [] ++ new⟩, ?_, hg, by simpa using hF⟩
+  unfold stabRun stabRunFrom
+  rw [List.append_nil] at hs
+  exact hs
+
 end Graphiq.Commute
